@@ -8,7 +8,7 @@ import (
 )
 
 var segPool = []string{"a", "b", "c", "d"}
-var specialSegs = []string{".git", ".terraform", "modules", "zzz", "f.txt", "g.txt", "a+b", "ab", "aab", " sp", "-d", ".hid", "ü日", "x(y)", "p|q"}
+var specialSegs = []string{".git", ".terraform", "modules", "zzz", "f.txt", "g.txt", "a+b", "ab", "aab", " sp", "-d", ".hid", "ü日", "x(y)", "p|q", "..data", "..x", "a-v2", "a.tf"}
 var fModes = []int{0o644, 0o600, 0o444, 0o400, 0o755, 0o777, 0o640, 0o000, 0o200}
 var dModes = []int{0o755, 0o700, 0o555, 0o500, 0o777, 0o750}
 var fracs = []int64{0, 400000000, 500000000, 600000000, 499999999, 999999999}
@@ -118,9 +118,18 @@ func genTree(r *simkit.RNG, sc *Scenario, k *knobs) {
 		extFiles = []string{"file", "dir/f", "chain1"}
 		extDirs = []string{"dir", "dirlink", "dir/sub"}
 		if k.extBack {
-			add(TNode{Root: "ext", Path: "dir/back-rel", Kind: "link", Target: "../../src/" + simkit.Pick(r, segPool)})
-			add(TNode{Root: "ext", Path: "dir/back-abs", Kind: "link", Target: SrcRoot + "/" + simkit.Pick(r, segPool)})
-			add(TNode{Root: "ext", Path: "dir/out", Kind: "link", Target: "../file"})
+			// links inside an out-of-tree directory: back into the tree (relative / absolute) and further out
+			switch r.Intn(4) {
+			case 0:
+				add(TNode{Root: "ext", Path: "dir/back-rel", Kind: "link", Target: "../../src/" + simkit.Pick(r, segPool)})
+			case 1:
+				add(TNode{Root: "ext", Path: "dir/back-abs", Kind: "link", Target: SrcRoot + "/" + simkit.Pick(r, segPool)})
+			case 2:
+				add(TNode{Root: "ext", Path: "dir/out", Kind: "link", Target: "../file"})
+			default:
+				add(TNode{Root: "ext", Path: "dir/out", Kind: "link", Target: "../file"})
+				add(TNode{Root: "ext", Path: "dir/sub/out2", Kind: "link", Target: "../../file"})
+			}
 		}
 		if k.hostileLinks {
 			add(TNode{Root: "ext", Path: "cyc1", Kind: "link", Target: "cyc2"})
@@ -133,6 +142,11 @@ func genTree(r *simkit.RNG, sc *Scenario, k *knobs) {
 			add(TNode{Root: "ext", Path: "dir2", Kind: "dir", Mode: 0o755})
 			add(TNode{Root: "ext", Path: "dir2/pipe", Kind: "fifo", Mode: 0o644})
 			add(TNode{Root: "ext", Path: "dir2/tofifo", Kind: "link", Target: "../pipe"})
+			add(TNode{Root: "ext", Path: "cA", Kind: "dir", Mode: 0o755})
+			add(TNode{Root: "ext", Path: "cB", Kind: "dir", Mode: 0o755})
+			add(TNode{Root: "ext", Path: "cA/f", Kind: "file", Mode: 0o644, Tok: "OUT-6;"})
+			add(TNode{Root: "ext", Path: "cA/peer", Kind: "link", Target: "../cB"})
+			add(TNode{Root: "ext", Path: "cB/peer", Kind: "link", Target: "../cA"})
 		}
 	}
 	n := k.maxNodes
@@ -188,10 +202,10 @@ func genTree(r *simkit.RNG, sc *Scenario, k *knobs) {
 				opts = append(opts, "abs-in")
 			}
 			if k.outLinks {
-				opts = append(opts, "out-file", "out-dir", "out-dangle", "sibling-prefix", "out-abs", "out-chain")
+				opts = append(opts, "out-file", "out-dir", "out-dangle", "sibling-prefix", "out-abs", "out-chain", "hist-ext")
 			}
 			if k.hostileLinks {
-				opts = append(opts, "cycle", "self", "loopdir", "fifo", "fifodir")
+				opts = append(opts, "cycle", "self", "loopdir", "fifo", "fifodir", "dircycle")
 			}
 			if len(opts) == 0 {
 				continue
@@ -243,6 +257,8 @@ func genTree(r *simkit.RNG, sc *Scenario, k *knobs) {
 				nd.Target = ExtRoot + "/" + simkit.Pick(r, append(append([]string{}, extFiles...), extDirs...))
 			case "out-chain":
 				nd.Target = up + "../ext/chain1"
+			case "hist-ext":
+				nd.Target = up + "../hist3/ext/file"
 			case "cycle":
 				nd.Target = up + "../ext/cyc1"
 			case "self":
@@ -253,6 +269,8 @@ func genTree(r *simkit.RNG, sc *Scenario, k *knobs) {
 				nd.Target = up + "../ext/pipe"
 			case "fifodir":
 				nd.Target = up + "../ext/dir2"
+			case "dircycle":
+				nd.Target = up + "../ext/cA"
 			}
 			add(nd)
 		case 3:
@@ -367,6 +385,13 @@ func genRuns(r *simkit.RNG, sc *Scenario, k *knobs, profile string) {
 	run := func() PackRun {
 		return PackRun{Spelling: "abs", Cwd: "/cwd"}
 	}
+	sc.SharedPacker = r.Chance(1, 3)
+	if k.outLinks && r.Chance(1, 6) {
+		// a relative allow-list entry, and a Packer that has already served another root
+		sc.Opts.Allow = []string{"../ext"}
+		sc.SharedPacker = true
+		sc.History = append(sc.History, "shared:hist3")
+	}
 	switch profile {
 	case "roundtrip":
 		p := run()
@@ -374,6 +399,17 @@ func genRuns(r *simkit.RNG, sc *Scenario, k *knobs, profile string) {
 		p.PipeCap = simkit.Pick(r, []int{1, 7, 64, 512, 4096, 65536})
 		p.Chunks = simkit.Pick(r, wchunks)
 		sc.Runs = []PackRun{p}
+		if r.Chance(1, 4) {
+			// two callers sharing one Packer, both results unpacked afterwards
+			p.RoundTrip = "seq"
+			sc.Runs = []PackRun{p, p}
+			sc.Conc, sc.SharedPacker = true, true
+			sc.SchedSeed = r.U64()
+			sc.SchedShape = simkit.Pick(r, []string{"random", "rr"})
+			if r.Chance(1, 2) {
+				sc.Others = []string{simkit.Pick(r, []string{"hist1", "hist4", "big"})}
+			}
+		}
 		sc.Opts.Deref = r.Chance(1, 5)
 		if k.rules {
 			sc.Opts.Ignore = r.Chance(3, 4)
@@ -386,9 +422,22 @@ func genRuns(r *simkit.RNG, sc *Scenario, k *knobs, profile string) {
 			p.RoundTrip = "seq"
 		}
 		sc.Runs = []PackRun{p}
-		if r.Chance(1, 3) {
-			sc.History = append(sc.History, simkit.Pick(r, []string{"neg-first", "empty-rules", "other-opts"}))
+		switch r.Intn(6) {
+		case 0, 1:
+			sc.History = append(sc.History, simkit.Pick(r, []string{"neg-first", "empty-rules", "other-opts", "dot-other-tree"}))
 			sc.Runs = append(sc.Runs, run()) // same pack again after the history
+			if sc.History[len(sc.History)-1] == "dot-other-tree" {
+				sc.Runs[len(sc.Runs)-1].Spelling, sc.Runs[len(sc.Runs)-1].Cwd = "rel", "/w/src"
+			}
+		case 2:
+			// other callers parse other rule files while this Pack is walking
+			sc.Conc = true
+			sc.Others = []string{simkit.Pick(r, []string{"hist1", "hist4", "big"})}
+			if r.Chance(1, 2) {
+				sc.Others = append(sc.Others, simkit.Pick(r, []string{"hist1", "hist4"}))
+			}
+			sc.SchedSeed = r.U64()
+			sc.SchedShape = simkit.Pick(r, []string{"random", "rr"})
 		}
 	case "links":
 		sc.Opts.Deref = r.Chance(1, 2)
@@ -406,7 +455,7 @@ func genRuns(r *simkit.RNG, sc *Scenario, k *knobs, profile string) {
 			sc.Runs = append(sc.Runs, p)
 		}
 		for i := r.Intn(3); i > 0; i-- {
-			sc.History = append(sc.History, simkit.Pick(r, []string{"neg-first", "other-opts", "empty-rules", "chdir:/tmp", "same"}))
+			sc.History = append(sc.History, simkit.Pick(r, []string{"neg-first", "other-opts", "empty-rules", "chdir:/tmp", "same", "dot-other-tree"}))
 		}
 		if r.Chance(1, 3) {
 			sc.Conc = true
@@ -424,6 +473,9 @@ func genRuns(r *simkit.RNG, sc *Scenario, k *knobs, profile string) {
 			}
 			sc.SchedSeed = r.U64()
 			sc.SchedShape = simkit.Pick(r, []string{"random", "random", "rr", "rtc"})
+			if r.Chance(1, 2) {
+				sc.Others = []string{simkit.Pick(r, []string{"hist1", "hist4", "big"})}
+			}
 		}
 	case "meta":
 		p := run()
@@ -435,7 +487,11 @@ func genRuns(r *simkit.RNG, sc *Scenario, k *knobs, profile string) {
 			sc.Conc = true
 			sc.Runs[0].Spelling = "abs"
 			sc.SchedSeed = r.U64()
-			sc.SchedShape = "random"
+			sc.SchedShape = simkit.Pick(r, []string{"random", "rr"})
+			sc.SharedPacker = r.Chance(2, 3)
+			if r.Chance(1, 3) {
+				sc.Others = []string{"big"}
+			}
 		}
 	case "hostile":
 		sc.Opts.Deref = r.Chance(3, 4)
